@@ -265,14 +265,19 @@ func plan(thorough bool) []task {
 			five = append(five, k)
 		}
 	}
+	two := []string{"spread", "two"}
+	allUnk := []string{shscen.ShapeAll, shscen.ShapeUnk}
 	if !thorough {
 		// every kind, 3 brokers, every layout and item-set shape, default order
 		grid(shscen.Kinds, []int{3}, allLayouts, allShapes, []int{0, 1}, 0)
-		// the five: every single deviation (reorder or fault)
-		grid(five, []int{3}, []string{"spread", "two"}, []string{shscen.ShapeAll, shscen.ShapeUnk}, []int{0, 1}, 1)
+		// every single deviation (reorder or fault): every kind on 2 layouts × 2 item sets, the five on all
+		grid(shscen.Kinds, []int{3}, two, allUnk, []int{0, 1}, 1)
+		grid(five, []int{3}, allLayouts, allShapes, []int{0, 1}, 1)
 	} else {
 		grid(shscen.Kinds, []int{1, 2, 3, 5}, allLayouts, allShapes, []int{0, 1}, 1)
-		grid(five, []int{3}, []string{"spread", "two"}, []string{shscen.ShapeAll, shscen.ShapeUnk}, []int{0, 1}, 2)
+		// every pair of deviations: the five on 2 layouts × 2 item sets with and without the environment step, every other kind on the spread layout
+		grid(five, []int{3}, two, allUnk, []int{0, 1}, 2)
+		grid(shscen.Kinds, []int{3}, []string{"spread"}, allUnk, []int{0}, 2)
 	}
 	var out []task
 	for _, n := range order {
